@@ -32,7 +32,7 @@ from ..c12_common import quiet, flat_obs, diff_obs, fmt_diff, run_tasks, collect
 from ..oracle_lp import LP
 
 KNOWN_KEYS = set()
-FLAVOURS = ("homogeneous", "forced", "fixed", "fixed0", "cons", "consvar", "all")
+FLAVOURS = ("homogeneous", "forced", "fixed", "fixed0", "cons", "consvar", "all", "conseq_neg", "conseq_pos")
 
 
 # ------------------------------------------------------------------------------------------------ models
@@ -76,6 +76,14 @@ def build(spec):
         m.add_cons_vars([c1, c2])
         cons.append(("uc_two_sided", {a.id: 1.0, b.id: -2.0}, None, 0.0, -5.0, 6.0))
         cons.append(("uc_upper_only", {a.id: 1.0, b.id: 1.0}, None, 0.0, None, 8.0))
+    if flavour in ("conseq_neg", "conseq_pos"):
+        # an extra EQUALITY row with a non-zero right-hand side of either sign (added after a seeded change that lost the abs() in
+        # constraint_matrices' test for a non-zero right-hand side was missed: only inequality rows and fixed fluxes were generated)
+        a, b = rs[0], rs[-1]
+        rhs = -2.0 if flavour == "conseq_neg" else 2.0
+        c4 = m.problem.Constraint(a.flux_expression - b.flux_expression, lb=rhs, ub=rhs, name="uc_equality")
+        m.add_cons_vars([c4])
+        cons.append(("uc_equality", {a.id: 1.0, b.id: -1.0}, None, 0.0, rhs, rhs))
     if flavour in ("consvar", "all"):
         a = rs[len(rs) // 2]
         uv = m.problem.Variable("uv", lb=0, ub=5)
